@@ -935,11 +935,80 @@ theorem highQcKeeps_false {a b : Int} (h : ¬ XV.Gen.highQcKeeps a b = true) : b
   simp at h
   exact h
 
-theorem pmAdvance_ge (cur r : Int) : cur ≤ XV.Gen.pmAdvance cur r ∧ r + 1 ≤ XV.Gen.pmAdvance cur r := by
+/-! ### the pacemaker at the full `int64` range
+
+Views are Go `int64`s.  The model keeps them as `Int`, and every arithmetic result of the translated guard
+`XV.Gen.pmAdvance` is reduced by `XV.Gen.wrap64` (two's complement), so the statements below are about the
+code at the FULL range: a certificate of view `MaxInt64` makes `r + 1` wrap to `MinInt64`.  The comparisons of the
+tree (`highQcKeeps`, `orphanExpired`) contain no arithmetic and are exact on `Int`. -/
+
+def minI64 : Int := -9223372036854775808
+def maxI64 : Int := 9223372036854775807
+
+/-- a value a Go `int64` can hold -/
+def I64 (x : Int) : Prop := minI64 ≤ x ∧ x ≤ maxI64
+
+theorem wrap64_range (x : Int) : I64 (XV.Gen.wrap64 x) := by
+  unfold XV.Gen.wrap64 I64 minI64 maxI64; omega
+
+theorem wrap64_id {x : Int} (h : I64 x) : XV.Gen.wrap64 x = x := by
+  unfold I64 minI64 maxI64 at h; unfold XV.Gen.wrap64; omega
+
+theorem wrap64_succ_max : XV.Gen.wrap64 (maxI64 + 1) = minI64 := by
+  unfold XV.Gen.wrap64 maxI64 minI64; omega
+
+/-- the view never decreases: for EVERY current view and EVERY certificate view (no range hypothesis: the
+guard compares the wrapped sum itself with the current view, so a wrapped sum is never taken) -/
+theorem pmAdvance_mono (cur r : Int) : cur ≤ XV.Gen.pmAdvance cur r := by
   unfold XV.Gen.pmAdvance
   split
   · rename_i h; simp at h; omega
+  · exact Int.le_refl _
+
+/-- the view stays a Go `int64` -/
+theorem pmAdvance_range {cur : Int} (r : Int) (h : I64 cur) : I64 (XV.Gen.pmAdvance cur r) := by
+  unfold XV.Gen.pmAdvance
+  split
+  · exact wrap64_range _
+  · exact h
+
+/-- below the top of the range the view passes the certificate's view -/
+theorem pmAdvance_ge (cur r : Int) (hr : I64 r) (hmax : r < maxI64) :
+    cur ≤ XV.Gen.pmAdvance cur r ∧ r + 1 ≤ XV.Gen.pmAdvance cur r := by
+  refine ⟨pmAdvance_mono cur r, ?_⟩
+  have hw : XV.Gen.wrap64 (r + 1) = r + 1 := wrap64_id (by unfold I64 minI64 maxI64 at *; omega)
+  unfold XV.Gen.pmAdvance
+  rw [hw]
+  split
+  · exact Int.le_refl _
   · rename_i h; simp at h; omega
+
+/-- at the top of the range nothing can follow: a certificate of view `MaxInt64` leaves the view where it is
+(`r + 1` wraps to `MinInt64`, which is not above any `int64`).  The view does NOT go down. -/
+theorem pmAdvance_at_max {cur : Int} (h : I64 cur) : XV.Gen.pmAdvance cur maxI64 = cur := by
+  unfold XV.Gen.pmAdvance
+  rw [wrap64_succ_max]
+  unfold I64 at h
+  split
+  · rename_i hc; simp at hc; omega
+  · rfl
+
+/-- the neighbouring guard `r ≥ cur` (equivalent to `r + 1 > cur` for every `r < MaxInt64`) is NOT monotone at the
+full range: the certificate of view `MaxInt64` takes the view from 10 to `MinInt64`.  This is why the guard above
+has to be checked with wrap-around semantics and why the harness presents the boundary views. -/
+def pmAdvanceGeGuard (cur r : Int) : Int := if r ≥ cur then XV.Gen.wrap64 (r + 1) else cur
+
+theorem pmAdvanceGeGuard_same_below_max (cur r : Int) (hr : I64 r) (hmax : r < maxI64) :
+    pmAdvanceGeGuard cur r = XV.Gen.pmAdvance cur r := by
+  have hw : XV.Gen.wrap64 (r + 1) = r + 1 := wrap64_id (by unfold I64 minI64 maxI64 at *; omega)
+  unfold pmAdvanceGeGuard XV.Gen.pmAdvance
+  rw [hw]
+  split <;> split <;> rename_i h1 h2 <;> simp at h2 <;> omega
+
+theorem pmAdvanceGeGuard_decreases : pmAdvanceGeGuard 10 maxI64 = minI64 ∧ minI64 < 10 := by
+  refine ⟨?_, by unfold minI64; omega⟩
+  unfold pmAdvanceGeGuard
+  rw [if_pos (by unfold maxI64; omega), wrap64_succ_max]
 
 /-- `updateHighQC` either changes nothing or re-derives all four markers from a node whose view is
 not below the old HighQC's -/
@@ -1435,7 +1504,7 @@ theorem pacemaker_monotone_step (W : World) (s : St) (o : Op) : s.pm ≤ (stepOp
     split
     · exact Int.le_refl _
     · rw [updateQcStatus_pm]
-      have h1 : s.pm ≤ (advanceView s pview).pm := (pmAdvance_ge s.pm pview).1
+      have h1 : s.pm ≤ (advanceView s pview).pm := pmAdvance_mono s.pm pview
       split
       · rcases updateCommit_cases W (advanceView s pview) ‹Nat› with e | ⟨_, _, e, _⟩ <;> rw [e] <;> exact h1
       · exact h1
@@ -1443,16 +1512,86 @@ theorem pacemaker_monotone_step (W : World) (s : St) (o : Op) : s.pm ≤ (stepOp
     simp only [stepOp]
     split
     · exact Int.le_refl _
-    · rw [(updateHighQC_tree W _ id).2.2.2.2.2.1]; exact (pmAdvance_ge s.pm _).1
-  | pm v => exact (pmAdvance_ge s.pm v).1
+    · rw [(updateHighQC_tree W _ id).2.2.2.2.2.1]; exact pmAdvance_mono s.pm _
+  | pm v => exact pmAdvance_mono s.pm v
 
 theorem pacemaker_monotone (W : World) (s : St) (ops : List Op) : s.pm ≤ (run W s ops).pm := by
   induction ops generalizing s with
   | nil => exact Int.le_refl _
   | cons o ops ih => exact Int.le_trans (pacemaker_monotone_step W s o) (ih _)
 
-theorem pacemaker_advances (W : World) (s : St) (v : Int) : v + 1 ≤ (stepOp W s (.pm v)).1.pm :=
-  (pmAdvance_ge s.pm v).2
+theorem pacemaker_advances (W : World) (s : St) (v : Int) (hv : I64 v) (hmax : v < maxI64) :
+    v + 1 ≤ (stepOp W s (.pm v)).1.pm :=
+  (pmAdvance_ge s.pm v hv hmax).2
+
+/-- the pacemaker view stays a Go `int64` under every operation -/
+theorem pacemaker_range_step (W : World) (s : St) (o : Op) (h : I64 s.pm) : I64 (stepOp W s o).1.pm := by
+  cases o with
+  | ins id => simp only [stepOp]; rw [updateQcStatus_pm]; exact h
+  | high id => simp only [stepOp]; rw [(updateHighQC_tree W s id).2.2.2.2.2.1]; exact h
+  | enforce id =>
+    simp only [stepOp, enforceUpdateHighQC]
+    split
+    · exact h
+    · exact h
+  | commit id =>
+    simp only [stepOp]
+    rcases updateCommit_cases W s id with e | ⟨_, _, e, _⟩ <;> rw [e] <;> exact h
+  | prop id pview c =>
+    simp only [stepOp]
+    split
+    · exact h
+    · rw [updateQcStatus_pm]
+      have h1 : I64 (advanceView s pview).pm := pmAdvance_range pview h
+      split
+      · rcases updateCommit_cases W (advanceView s pview) ‹Nat› with e | ⟨_, _, e, _⟩ <;> rw [e] <;> exact h1
+      · exact h1
+  | vote id =>
+    simp only [stepOp]
+    split
+    · exact h
+    · rw [(updateHighQC_tree W _ id).2.2.2.2.2.1]; exact pmAdvance_range _ h
+  | pm v => exact pmAdvance_range v h
+
+theorem pacemaker_range (W : World) (s : St) (ops : List Op) (h : I64 s.pm) : I64 (run W s ops).pm := by
+  induction ops generalizing s with
+  | nil => exact h
+  | cons o ops ih => exact ih _ (pacemaker_range_step W s o h)
+
+/-- a certificate of view `MaxInt64` (one unauthenticated proposal can carry it) does not move the view -/
+theorem pacemaker_at_max (W : World) (s : St) (h : I64 s.pm) : (stepOp W s (.pm maxI64)).1.pm = s.pm :=
+  pmAdvance_at_max h
+
+/-! ### independent trees of one process
+
+Property C15 is about every node's tree.  In one process there may be several (parallel chains; the replicas of an
+in-process net): the model of that is a family of states stepped one at a time in ANY interleaving (`runSched`).  Tree
+`i` ends exactly where its own operations alone take it, so every theorem of this file holds for every tree of the
+family.  The harness op `conc` checks this of the real code (threads interleaved at every id read of a lookup): state
+shared between instances (scratch space, caches, pooled nodes) would break it. -/
+
+theorem interleaved_eq_sequential (Ws : Nat → World) (sts : Nat → St) (sched : List (Nat × Op)) (i : Nat) :
+    runSched Ws sts sched i = run (Ws i) (sts i) ((sched.filter (fun io => io.1 = i)).map (fun io => io.2)) := by
+  induction sched generalizing sts with
+  | nil => rfl
+  | cons io rest ih =>
+    show runSched Ws (stepAt Ws sts io) rest i = _
+    rw [ih]
+    by_cases h : io.1 = i
+    · have e : stepAt Ws sts io i = (stepOp (Ws i) (sts i) io.2).1 := by
+        unfold stepAt; rw [if_pos h.symm]
+      rw [e, List.filter_cons_of_pos (by simpa using h)]
+      rfl
+    · have e : stepAt Ws sts io i = sts i := by
+        unfold stepAt; rw [if_neg (fun c => h c.symm)]
+      rw [e, List.filter_cons_of_neg (by simpa using h)]
+
+/-- the invariant of every tree of the family survives every interleaving -/
+theorem inv_interleaved {rk : Nat → Nat} (Ws : Nat → World) (sts : Nat → St) (sched : List (Nat × Op)) (i : Nat)
+    (hrk : ∀ x p, ((Ws i) x).parent = some p → rk p < rk x) (h : Inv (Ws i) (sts i)) :
+    Inv (Ws i) (runSched Ws sts sched i) := by
+  rw [interleaved_eq_sequential]
+  exact run_inv hrk h _
 
 /-! ### non-vacuity: concrete reachable states -/
 
@@ -1502,5 +1641,10 @@ example : let s := run W1 (init 0) [.ins 40, .ins 1, .ins 2, .ins 3, .ins 4, .in
 
 /-- the pacemaker only moves forward -/
 example : (run W1 (init 0) [.pm 4, .pm 2, .vote 0]).pm = 5 := by decide
+
+/-- … also at the top of the `int64` range: after the certificate of view `MaxInt64 - 1` the view is `MaxInt64`
+and the certificates of the views `MaxInt64`, `MinInt64`, `-1` leave it there -/
+example : (run W1 (init 0) [.pm 4, .pm (maxI64 - 1)]).pm = maxI64 ∧
+    (run W1 (init 0) [.pm 4, .pm (maxI64 - 1), .pm maxI64, .pm minI64, .pm (-1)]).pm = maxI64 := by decide
 
 end XV.C15
